@@ -305,7 +305,8 @@ func (rw *rewriter) block(b *ast.BlockStmt, skip bool) {
 
 func (rw *rewriter) stmts(list []ast.Stmt, skip bool) []ast.Stmt {
 	var out []ast.Stmt
-	for _, s := range list {
+	for idx, s := range list {
+		lastInBlock := idx == len(list)-1
 		// recurse first
 		switch x := s.(type) {
 		case *ast.BlockStmt:
@@ -395,7 +396,9 @@ func (rw *rewriter) stmts(list []ast.Stmt, skip bool) []ast.Stmt {
 			}
 		}
 		out = append(out, s)
-		if post {
+		if post && !lastInBlock {
+			// (after the last statement of a block nothing of the block runs any more, and a
+			// statement after a terminating select would break "missing return" analysis)
 			out = append(out, rw.yieldStmt(s.End(), "after"))
 		}
 	}
